@@ -104,6 +104,18 @@ Theorem C10_check_accept_implies : forall (H1 H2 : bytes -> bytes) (jacobi : Z -
 Proof. exact check_accept_implies. Qed.
 Print Assumptions C10_check_accept_implies.
 
+(* key texts: export then import gives the key back (fields without the delimiter; secret key passing precompute) *)
+Theorem C10_pubkey_text_roundtrip : forall k, nobar (k_name k) -> nobar (k_email k) -> nobar (k_type k) -> nobar (k_nizk k) ->
+  import_pub (export_pub k) = Some k.
+Proof. exact import_export_pub. Qed.
+Print Assumptions C10_pubkey_text_roundtrip.
+
+Theorem C10_seckey_text_roundtrip : forall k p q, nobar (k_name k) -> nobar (k_email k) -> nobar (k_type k) -> nobar (k_nizk k) ->
+  precompute_ok (k_m k) (k_y k) p q = true ->
+  import_sec (export_sec k p q) = Some (k, p, q).
+Proof. exact import_export_sec. Qed.
+Print Assumptions C10_seckey_text_roundtrip.
+
 (* ---- refuted full statements (defects of the code, see docs/C10.md) ------------------------------------------ *)
 (* "a signature whose value was replaced by 0 is refused" is false: a zero square makes mpz_export write nothing, the
    verdict is computed from what the previous use left in the (uninitialised) buffer *)
